@@ -27,6 +27,18 @@ type RemoteNode interface {
 	CacheKey() string
 }
 
+// A resolvingNode is a remote node whose location is only fully known once it
+// has been downloaded (a directory-style URL is completed by a default
+// Taskfile name). The includes of such a node are resolved against the
+// completed location, so it has to be remembered together with the cached
+// copy: a Taskfile read from the cache must include the same files as the
+// downloaded one.
+type resolvingNode interface {
+	RemoteNode
+	resolvedLocation() string
+	setResolvedLocation(location string)
+}
+
 func NewRootNode(
 	entrypoint string,
 	dir string,
